@@ -129,6 +129,9 @@ type VarSpec struct {
 	Attrs uint32 `json:"attrs,omitempty"`
 	// AttrsSet overrides the attribute mask of a predefined definition.
 	AttrsSet bool `json:"attrs_set,omitempty"`
+	// Rebuilt: the caller wrote the definition down itself — same name, GUID value and attributes as the predefined one,
+	// but not the library's own GUID object.
+	Rebuilt bool `json:"rebuilt,omitempty"`
 }
 
 func (s VarSpec) Var() efivar.Efivar {
@@ -139,6 +142,10 @@ func (s VarSpec) Var() efivar.Efivar {
 		}
 		if s.AttrsSet {
 			v.Attributes = attributes.Attributes(s.Attrs)
+		}
+		if s.Rebuilt && v.GUID != nil {
+			g := *v.GUID
+			v.GUID = &g
 		}
 		return v
 	}
